@@ -160,31 +160,93 @@ func c48isTarget(req *bfe_basic.Request) bool {
 	return req != nil && req.HttpRequest != nil && req.HttpRequest.URL != nil && req.HttpRequest.URL.Path == "/t"
 }
 
-// what filter i hands out for a Response verdict
-func c48respSpec(kind, i int) (status int, hdr map[string]string, body string) {
-	hdr = map[string]string{"Server": "bfe", "X-C48-Filter": fmt.Sprint(i)}
-	switch kind {
-	case 0: // like bfe_basic.CreateForbiddenResp: no body
-		return 403, hdr, ""
-	case 1: // short body with a declared length
-		hdr["Content-Length"] = "5"
-		return 200, hdr, fmt.Sprintf("body%d", i)
-	default: // long body without a declared length (chunked / close-delimited on the wire)
-		return 200, hdr, strings.Repeat(fmt.Sprintf("%d123456789", i), 500)
+// ---- payload shapes of a Response verdict -----------------------------------------------------
+//
+// Every shape a module may legally hand back: Body object nil (mod_secure_link answers
+// &bfe_http.Response{StatusCode: 403}) / bfe_http.EofReader (bfe_basic.CreateInternalResp) /
+// short / long reader; Header map nil / present / present with a declared Content-Length (and
+// the ContentLength field set); statuses that allow a body (403, 200) and that do not (204, 304).
+type c48payload struct {
+	status int
+	body   int // 0 nil Body, 1 EofReader, 2 short (5 bytes), 3 long (5000 bytes)
+	hdr    int // 0 nil Header map, 1 Header map, 2 Header map + Content-Length + ContentLength field
+}
+
+var c48payloads = func() []c48payload {
+	// the first four are the representative ones used where the full product is not crossed
+	out := []c48payload{{403, 1, 1}, {200, 2, 2}, {200, 3, 1}, {403, 0, 0}}
+	seen := map[c48payload]bool{}
+	for _, p := range out {
+		seen[p] = true
 	}
+	add := func(p c48payload) {
+		if !seen[p] {
+			seen[p] = true
+			out = append(out, p)
+		}
+	}
+	for _, st := range []int{403, 200} {
+		for b := 0; b < 4; b++ {
+			for h := 0; h < 3; h++ {
+				add(c48payload{st, b, h})
+			}
+		}
+	}
+	for _, st := range []int{204, 304} {
+		for b := 0; b < 3; b++ {
+			for h := 0; h < 2; h++ {
+				add(c48payload{st, b, h})
+			}
+		}
+	}
+	return out
+}()
+
+const c48reprPayloads = 4
+
+func c48bodyAllowed(status int) bool { // RFC 7230 3.3.3
+	return !(status >= 100 && status < 200) && status != 204 && status != 304
+}
+
+// what filter i hands out for a Response verdict: status, header fields (nil = no Header map),
+// body bytes of the Body object (nilBody = no Body object at all)
+func c48respSpec(kind, i int) (status int, hdr map[string]string, body string, nilBody bool) {
+	p := c48payloads[kind]
+	switch p.body {
+	case 0:
+		nilBody = true
+	case 2:
+		body = fmt.Sprintf("body%d", i)
+	case 3:
+		body = strings.Repeat(fmt.Sprintf("%d123456789", i), 500)
+	}
+	if p.hdr > 0 {
+		hdr = map[string]string{"Server": "bfe", "X-C48-Filter": fmt.Sprint(i)}
+		if p.hdr == 2 {
+			hdr["Content-Length"] = fmt.Sprint(len(body))
+		}
+	}
+	return p.status, hdr, body, nilBody
 }
 
 func c48makeResp(kind, i int) *bfe_http.Response {
-	status, hdr, body := c48respSpec(kind, i)
+	status, hdr, body, nilBody := c48respSpec(kind, i)
 	res := new(bfe_http.Response)
 	res.StatusCode = status
-	res.Header = make(bfe_http.Header)
-	for k, v := range hdr {
-		res.Header.Set(k, v)
+	if hdr != nil {
+		res.Header = make(bfe_http.Header)
+		for k, v := range hdr {
+			res.Header.Set(k, v)
+		}
+		if _, ok := hdr["Content-Length"]; ok {
+			res.ContentLength = int64(len(body))
+		}
 	}
-	if body == "" {
+	switch {
+	case nilBody:
+	case body == "":
 		res.Body = bfe_http.EofReader
-	} else {
+	default:
 		res.Body = io.NopCloser(strings.NewReader(body))
 	}
 	return res
@@ -232,7 +294,7 @@ func c48register(srv *BfeServer, L int) {
 						return c48bfeVerdict(v), c48makeResp(c48.respKind, i)
 					case c48Finish:
 						if c48.finRes {
-							return c48bfeVerdict(v), c48makeResp(1, i)
+							return c48bfeVerdict(v), c48makeResp(1, i) // 200 + short body + Content-Length
 						}
 					}
 					return c48bfeVerdict(v), nil
@@ -285,14 +347,14 @@ var c48shapes = []c48shape{
 	{name: "nohost", sends: []string{"GET /t HTTP/1.1\r\nHost: unknown.example\r\n\r\n"}, reqs: "t", methods: []string{"GET"}, nohost: true},
 	{name: "retry", sends: []string{"GET /t HTTP/1.1\r\n" + c48host + "\r\n"}, reqs: "t", methods: []string{"GET"},
 		answers: func() []h1answer { return []h1answer{{ErrKind: "connect"}} }},
+	{name: "close-hdr", sends: []string{"GET /t HTTP/1.1\r\n" + c48host + "Connection: close\r\n\r\n"}, reqs: "t", methods: []string{"GET"}},
 	// thorough only below
 	{name: "split", sends: []string{"GET /t HT", "TP/1.1\r\n" + c48host, "\r\n"}, reqs: "t", methods: []string{"GET"}},
 	{name: "pipe-ntn", sends: []string{"GET /n HTTP/1.1\r\n" + c48host + "\r\nGET /t HTTP/1.1\r\n" + c48host + "\r\nGET /n HTTP/1.1\r\n" + c48host + "\r\n"}, reqs: "ntn", methods: []string{"GET", "GET", "GET"}},
 	{name: "post-chunked", sends: []string{"POST /t HTTP/1.1\r\n" + c48host + "Transfer-Encoding: chunked\r\n\r\n5\r\nhello\r\n0\r\n\r\n"}, reqs: "t", methods: []string{"POST"}},
-	{name: "close-hdr", sends: []string{"GET /t HTTP/1.1\r\n" + c48host + "Connection: close\r\n\r\n"}, reqs: "t", methods: []string{"GET"}},
 }
 
-const c48quickShapes = 9
+const c48quickShapes = 10
 
 func c48backendAnswer() *h1answer {
 	return &h1answer{Resp: func(req *bfe_http.Request) *bfe_http.Response {
@@ -303,9 +365,10 @@ func c48backendAnswer() *h1answer {
 // ---- client-side parsing (independent: Go's net/http) ------------------------------------------
 
 type c48parsed struct {
-	status int
-	hdr    http.Header
-	body   []byte
+	status     int
+	hdr        http.Header
+	body       []byte
+	closeAfter bool // the response tells the client that the connection ends with it
 }
 
 // c48parse splits the bytes the client received into final responses (1xx interim responses are
@@ -334,7 +397,9 @@ func c48parse(out []byte, methods []string) (resps []c48parsed, interim int, res
 		if e != nil {
 			return resps, interim, before, e
 		}
-		resps = append(resps, c48parsed{status: res.StatusCode, hdr: res.Header, body: b})
+		chunked := len(res.TransferEncoding) > 0
+		closeDelimited := res.ContentLength < 0 && !chunked && c48bodyAllowed(res.StatusCode) && m != "HEAD"
+		resps = append(resps, c48parsed{status: res.StatusCode, hdr: res.Header, body: b, closeAfter: res.Close || closeDelimited})
 	}
 }
 
@@ -526,6 +591,9 @@ func c48judge(r *vk.Run, c c48case, o c48obs) string {
 		if !o.closedMid || !o.doneMid || !bytes.Equal(o.outMid, o.outEnd) {
 			vio("finish:"+pt.name+":not-closed", fmt.Sprintf("finish verdict but the server did not close the connection after the reply (closed=%v serve returned=%v before the client closed)", o.closedMid, o.doneMid))
 		}
+		if o.panics > 0 {
+			vio("panic:"+pt.name+":finish", fmt.Sprintf("%d panic(s) recovered in conn.serve while answering a finish verdict", o.panics))
+		}
 		cls := "finish-closed"
 		if len(resps) == ti+1 {
 			cls = fmt.Sprintf("finish-closed-reply%d", resps[ti].status)
@@ -554,11 +622,17 @@ func c48judge(r *vk.Run, c c48case, o c48obs) string {
 				wantHdr[hk] = hv
 			}
 		} else {
-			status, hdr, body := c48respSpec(c.respKind, k)
+			status, hdr, body, _ := c48respSpec(c.respKind, k)
+			if !c48bodyAllowed(status) {
+				body = "" // such a status is sent without a body whatever the Body object holds
+			}
 			if got.status != status {
 				vio(word+":"+pt.name+":status", fmt.Sprintf("status %d, want %d", got.status, status))
 			}
 			for hk, hv := range hdr {
+				if hk == "Content-Length" && !c48bodyAllowed(status) {
+					continue
+				}
 				wantHdr[hk] = hv
 			}
 			if string(got.body) != body {
@@ -587,7 +661,34 @@ func c48judge(r *vk.Run, c c48case, o c48obs) string {
 		if pt.kind == "request" && o.targetAtts != 0 {
 			vio(word+":"+pt.name+":backend-contacted", fmt.Sprintf("%d backend attempts for the target request", o.targetAtts))
 		}
-		return pt.name + ":" + word + "-sent"
+		// exactly one final response for the target, and the connection goes on as that response
+		// says: after a response that announces the end of the connection nothing more is served
+		// and the server closes; everything the client got must be complete responses
+		after := len(resps) - (ti + 1)
+		reuse := "last"
+		if got.closeAfter {
+			reuse = "close-signalled"
+			if after > 0 || rest > 0 {
+				vio(word+":"+pt.name+":served-after-close-signalled", fmt.Sprintf("the response announced the end of the connection, yet %d more responses / %d more bytes followed", after, rest))
+			}
+			if !o.closedMid || !o.doneMid {
+				vio(word+":"+pt.name+":close-signalled-not-closed", "the response announced the end of the connection but the server left it open")
+			}
+		} else {
+			if perr != nil || rest > 0 {
+				vio(word+":"+pt.name+":garbage-after-response", fmt.Sprintf("bytes after the response do not form a response (%v, %d bytes): the keep-alive client is desynchronised", perr, rest))
+			}
+			if ti+1 < len(sh.reqs) {
+				reuse = "reused"
+				if after < len(sh.reqs)-(ti+1) {
+					reuse = "dropped" // legal for a server, only recorded
+				}
+			}
+		}
+		if o.panics > 0 {
+			vio("panic:"+pt.name+":"+word, fmt.Sprintf("%d panic(s) recovered in conn.serve (PanicClientConnServe) while answering a %s verdict", o.panics, word))
+		}
+		return pt.name + ":" + word + "-sent:" + reuse
 	}
 	return "?"
 }
@@ -621,8 +722,9 @@ func TestVerifC48(t *testing.T) {
 		dir = t.TempDir()
 	}
 	maxL := r.Pick(3, 5)
+	fullPayloadL := r.Pick(3, 4) // chains up to this length are crossed with every payload shape
 	nShapes := r.Pick(c48quickShapes, len(c48shapes))
-	r.Set("bounds", fmt.Sprintf("points=%d (all of the plain-HTTP path), chain length 1..%d, verdict alphabet 5 (all vectors), request shapes=%d, response kinds 3, redirect kinds 2", len(c48points), maxL, nShapes))
+	r.Set("bounds", fmt.Sprintf("points=%d (all of the plain-HTTP path), chain length 1..%d, verdict alphabet 5 (all vectors), request shapes=%d, response payload shapes %d (all for L<=%d, %d representative beyond), redirect kinds 2", len(c48points), maxL, nShapes, len(c48payloads), fullPayloadL, c48reprPayloads))
 
 	idx := 0
 	panics := int64(0)
@@ -654,7 +756,11 @@ func TestVerifC48(t *testing.T) {
 				switch {
 				case v == c48Response && pt.kind == "request":
 					variants = nil
-					for rk := 0; rk < 3; rk++ {
+					nk := len(c48payloads)
+					if L > fullPayloadL {
+						nk = c48reprPayloads
+					}
+					for rk := 0; rk < nk; rk++ {
 						x := base
 						x.respKind = rk
 						variants = append(variants, x)
